@@ -30,7 +30,7 @@ meta = {
         "demo_without_patch": summ["demo_without_patch"], "demo_with_patch": summ["demo_with_patch"],
         "existing_tests_with_patch": summ["existing_tests_with_patch"], "tested_packages": summ["tested_packages"].strip(),
     },
-    "our_check": {"tier": summ["check_tier"], "exit": summ["check_exit"], "signatures": [s for s in summ["signatures"].split(";") if s], "note": note},
+    "our_check": {"tier": summ["check_tier"], "exit": summ["check_exit"], "exit_before_the_check_was_strengthened": summ.get("first_check_exit"), "signatures": [s for s in summ["signatures"].split(";") if s], "note": note},
 }
 json.dump(meta, open(os.path.join(dst, "meta.json"), "w"), indent=1)
 print("kept", dst)
